@@ -39,7 +39,7 @@ ASSUMPTIONS = [
 
 TYPE_LISTS = {"copy": ["copy"], "hardlink": ["hardlink"], "symlink": ["symlink"], "reflink+copy": ["reflink", "copy"]}
 EFF = {"copy": "copy", "hardlink": "hardlink", "symlink": "symlink", "reflink+copy": "copy"}
-TYPE_NAMES = ["hardlink", "copy", "symlink", "reflink+copy", "symlink", "hardlink"]
+TYPE_NAMES = ["hardlink", "copy", "symlink", "reflink+copy", "copy", "symlink", "hardlink"]
 DT = st.one_of(
     st.integers(1_000, 5_000).map(lambda x: x),               # microseconds
     st.integers(1_000_000, 10_000_000_000),
@@ -54,12 +54,16 @@ def edits(draw, is_tree):
         kinds = ["modify", "delete", "touch", "ln", "modify"]
     out = []
     lead = []
-    if draw(st.sampled_from([True, False, True])):
-        # most histories open with a modification and an addition/removal (the non-triviality rule)
-        lead = ["modify", draw(st.sampled_from(["delete", "add", "delete"])) if is_tree else "delete"]
+    if is_tree and draw(st.sampled_from([True, False, True])):
+        # most tree histories open with a modification and an addition/removal (the non-triviality rule)
+        lead = ["modify", draw(st.sampled_from(["delete", "add", "delete"]))]
         if draw(st.booleans()):
             lead.reverse()
-    n = draw(st.sampled_from([2, 1, 3, 4, 0, 5, 6, 3, 2]))
+    if is_tree:
+        n = draw(st.sampled_from([2, 1, 3, 4, 0, 5, 6, 3, 2]))
+    else:
+        # a single-file target is often relinked as it stands (still the L1 link), or after one edit
+        n = draw(st.sampled_from([0, 1, 0, 2, 0]))
     for j in range(max(n, len(lead))):
         k = lead[j] if j < len(lead) else draw(st.sampled_from(kinds))
         e = {"op": k, "i": draw(st.integers(0, 30)), "dt": draw(DT)}
@@ -78,7 +82,7 @@ def edits(draw, is_tree):
 
 @st.composite
 def cases(draw, max_files=8):
-    shape = draw(st.sampled_from(["tree", "tree", "tree", "file", "tree", "tree", "tree"]))
+    shape = draw(st.sampled_from(["tree", "file", "tree", "tree", "file", "tree", "tree"]))
     case = {"shape": shape}
     if shape == "tree":
         content = draw(st.sampled_from([gen.small_contents(), gen.small_contents(), gen.contents(max_size=32)]))
@@ -425,6 +429,13 @@ def run_case(case, ctx):
             # ---- phase 3: configured type L2 ---------------------------------------------
             odb2 = odb_for(case["l2"])
             target = oload(odb2, obj.hash_info)
+            if not is_tree and os.path.lexists(ws):
+                r0 = snap_ws(ws).get("")
+                if r0 and r0.get("bytes") == flat[""] and (r0["kind"] == "symlink" or r0["nlink"] > 1):
+                    # the root entry of a single-file target carries no stat meta in the diff
+                    classes.append("single-file-still-linked")
+                    if case["l2"] == "copy" and not local:
+                        classes.append("single-file-still-linked:[copy]:generic")
             if case["plan"] == "force-first":
                 r = call("forced", odb2, target, force=True)
                 if r != "raised":
